@@ -136,8 +136,13 @@ func c12Gen(r *rand.Rand, tier string, idx int) any {
 		return &p
 	}
 	if r.IntN(4) == 0 {
-		e := &C12Params{E2E: []string{"12-cert", "12-clientauth", "12-ecdhepsk", "12-cid", "12-nohv"}[r.IntN(5)], MTU: []int{64, 100, 150, 300, 1200}[r.IntN(5)]}
+		e := &C12Params{E2E: []string{"12-cert", "12-clientauth", "12-ecdhepsk", "12-cid", "12-nohv", "13-full", "13-clientauth", "13-hrr"}[r.IntN(8)], MTU: []int{64, 100, 150, 300, 1200}[r.IntN(5)]}
 		e.E2ENet = NetRules{DupPm: r.IntN(200), HoldPm: 50 + r.IntN(400), FaultsUntilIdx: 10 + r.IntN(60), HoldMaxNs: int64(time.Millisecond) * int64(1+r.IntN(400))}
+		if r.IntN(2) == 0 {
+			// fragments are also lost (finitely): the retransmission has to bring exactly the missing
+			// pieces, with the right offsets and lengths, possibly more than once
+			e.E2ENet.DropPm = 50 + r.IntN(300)
+		}
 
 		return e
 	}
@@ -252,7 +257,7 @@ func c12E2E(rc *RunCtx, p *C12Params) {
 		return
 	}
 	if !pair.BothOK() {
-		rc.Violate("e2e-not-reassembled", "%s at MTU %d with datagrams reordered and duplicated but none lost: the handshake did not complete (client done=%v err=%v at %s, server done=%v err=%v at %s)", v.Name, p.MTU,
+		rc.Violate("e2e-not-reassembled", "%s at MTU %d with datagrams reordered, duplicated and (if the plan says so, finitely) lost: the handshake did not complete (client done=%v err=%v at %s, server done=%v err=%v at %s)", v.Name, p.MTU,
 			pair.CHs.Done, pair.CHs.Err, pair.Env.FSMState("c"), pair.SHs.Done, pair.SHs.Err, pair.Env.FSMState("s"))
 
 		return
